@@ -1502,6 +1502,22 @@ static void write_buf(char *buf, uint64_t val, int sz) {
     unreachable();
 }
 
+// Merge the value of a bit-field member into the bytes of its storage
+// unit, which starts at base + mem->offset.
+static void write_gvar_bitfield(Node *expr, Member *mem, char *base) {
+  if (!expr)
+    return;
+
+  char *loc = base + mem->offset;
+  uint64_t oldval = read_buf(loc, mem->ty->size);
+  uint64_t newval = eval(expr);
+  if (mem->ty->kind == TY_BOOL)
+    newval = is_flonum(expr->ty) ? eval_double(expr) != 0 : newval != 0;
+  uint64_t mask = ~0UL >> (64 - mem->bit_width);
+  uint64_t combined = oldval | ((newval & mask) << mem->bit_offset);
+  write_buf(loc, combined, mem->ty->size);
+}
+
 static Relocation *
 write_gvar_data(Relocation *cur, Initializer *init, Type *ty, char *buf, int offset) {
   if (ty->kind == TY_ARRAY) {
@@ -1514,18 +1530,7 @@ write_gvar_data(Relocation *cur, Initializer *init, Type *ty, char *buf, int off
   if (ty->kind == TY_STRUCT) {
     for (Member *mem = ty->members; mem; mem = mem->next) {
       if (mem->is_bitfield) {
-        Node *expr = init->children[mem->idx]->expr;
-        if (!expr)
-          continue;
-
-        char *loc = buf + offset + mem->offset;
-        uint64_t oldval = read_buf(loc, mem->ty->size);
-        uint64_t newval = eval(expr);
-        if (mem->ty->kind == TY_BOOL)
-          newval = is_flonum(expr->ty) ? eval_double(expr) != 0 : newval != 0;
-        uint64_t mask = ~0UL >> (64 - mem->bit_width);
-        uint64_t combined = oldval | ((newval & mask) << mem->bit_offset);
-        write_buf(loc, combined, mem->ty->size);
+        write_gvar_bitfield(init->children[mem->idx]->expr, mem, buf + offset);
       } else {
         cur = write_gvar_data(cur, init->children[mem->idx], mem->ty, buf,
                               offset + mem->offset);
@@ -1537,6 +1542,10 @@ write_gvar_data(Relocation *cur, Initializer *init, Type *ty, char *buf, int off
   if (ty->kind == TY_UNION) {
     if (!init->mem)
       return cur;
+    if (init->mem->is_bitfield) {
+      write_gvar_bitfield(init->children[init->mem->idx]->expr, init->mem, buf + offset);
+      return cur;
+    }
     return write_gvar_data(cur, init->children[init->mem->idx],
                            init->mem->ty, buf, offset);
   }
